@@ -681,9 +681,16 @@ def parse_items(p, fns, structs, impl_of, trait_arg, top=False):
         if p.at("use") or p.at("mod") or p.at("type") or p.at("const") or p.at("static") or p.at("extern"):
             if p.at("mod") and p.peek(2)[1] == "{":
                 raise ParseError("inline module outside tests")
-            while not p.eat(";"):
+            depth = 0          # `type T = ([u32; 2], u32);` - the terminating `;` is the one outside all brackets
+            while True:
                 if p.peek()[0] == "eof":
                     raise ParseError("unterminated item")
+                if depth == 0 and p.eat(";"):
+                    break
+                if p.at("(") or p.at("[") or p.at("{"):
+                    depth += 1
+                elif p.at(")") or p.at("]") or p.at("}"):
+                    depth -= 1
                 p.i += 1
             continue
         if p.at("macro_rules") or (kind == "ident" and p.peek(1)[1] == "!"):
